@@ -16,13 +16,13 @@ ELock == \/ Is("lock", P) /\ P_Lock
          \/ \E w \in Workers : Is("lock", w) /\ W_Lock(w)
 EWoke == \/ Is("woke", P) /\ P_Reacquire
          \/ \E w \in Workers : Is("woke", w) /\ W_Reacquire(w)
-EUnlock == \/ Is("unlock", P) /\ (P_Unlock \/ P_FUnlock)
+EUnlock == \/ Is("unlock", P) /\ (P_Unlock \/ P_FUnlock \/ P_UnlockFirst \/ P_FUnlockFirst)
            \/ \E w \in Workers : Is("unlock", w) /\ (W_Unlock(w) \/ W_ExitUnlock(w))
 EWait == \/ Is("wait", P) /\ Ev.cvname = "produce" /\ P_Wait
          \/ \E w \in Workers : Is("wait", w) /\ Ev.cvname = "consume" /\ W_Wait(w)
-ESignal == \/ Is("signal", P) /\ Ev.cvname = "consume" /\ P_Signal
+ESignal == \/ Is("signal", P) /\ Ev.cvname = "consume" /\ (P_Signal \/ P_SignalLate)
            \/ \E w \in Workers : Is("signal", w) /\ Ev.cvname = "produce" /\ W_Signal(w)
-EBroadcast == Is("broadcast", P) /\ Ev.cvname = "consume" /\ P_Finish
+EBroadcast == Is("broadcast", P) /\ Ev.cvname = "consume" /\ (P_Broadcast \/ P_BroadcastLate)
 \* the worker opens implementation file number Ev.file: it must be the task it took
 EWork == \E w \in Workers : Is("fopen", w) /\ holding[w] = Ev.file /\ W_Work(w)
 EJoin == Is("joined", P) /\ P_Join
@@ -32,7 +32,7 @@ EReset == /\ Is("reset", P) /\ Terminated
           /\ nextFile' = 1 /\ holding' = [w \in Workers |-> None] /\ written' = <<>>
           /\ wset' = [c \in {"produce", "consume"} |-> {}] /\ spur' = SpuriousBudget
 Silent == /\ l <= Len(Log) /\ UNCHANGED l
-          /\ (P_Test \/ P_Put \/ Spurious \/ \E w \in Workers : W_Test(w) \/ W_Take(w))
+          /\ (P_Test \/ P_Put \/ P_Finish \/ Spurious \/ \E w \in Workers : W_Test(w) \/ W_Take(w))
 TNext == ELock \/ EWoke \/ EUnlock \/ EWait \/ ESignal \/ EBroadcast \/ EWork \/ EJoin \/ EReset \/ Silent
 Progress == TLCSet(2, IF l > TLCGet(2) THEN l ELSE TLCGet(2))
 Reached == TLCGet("level") >= 0 /\ ndJsonSerialize(IOEnv.OUTFILE, <<[reached |-> TLCGet(2), total |-> Len(Log)]>>)
